@@ -41,7 +41,9 @@ def strategy(tier, unit):
         "tthd": S.fl(0.5, 150), "chi": tilt, "wedge": tilt, "scale": S.logfl(1e-2, 1e2), "wl": S.fl(0.05, 0.2),
         "atan": st.tuples(small, small).map(list),
         "syscond": st.lists(cond, min_size=26, max_size=26), "shkl": S.hkls(6, allow_zero=True),
-        "hk": HK.case_strategy(0), "setting": st.integers(0, 236),
+        "hk": HK.case_strategy(0),
+        # every setting, with extra weight on the intricate scan tables (Laue -1, 2/m, rhombohedral settings)
+        "setting": st.one_of(st.integers(0, 236), st.integers(0, 236), st.integers(0, 14), st.integers(230, 236)),
         "b0": st.tuples(S.logfl(0.1, 10), S.logfl(0.1, 10), S.logfl(0.1, 10), S.fl(-1, 1), S.fl(-1, 1), S.fl(-1, 1)).map(list)})
 
 
@@ -227,7 +229,7 @@ def check(case, ctx):
         ctx.fail("differs/sysabs_unique", "sysabs_unique(%r, %r): tools %r laue %r" % (sh, sc, a, b))
     # ---- reflection generation
     hk = dict(case["hk"], setting=case["setting"])
-    B = HK.build(hk, max_points=600)
+    B = HK.build(hk, max_points=1500 if (hk["setting"] < 15 or hk["setting"] >= 230) else 600)
     if B.ok:
         for fn in ("genhkl_unique", "genhkl_all"):
             np.random.seed(hk["npseed"])
